@@ -1406,3 +1406,16 @@ M('C14', 'fromgrid ignores negative axis keys of min_pt', 'odl/discr/partition.p
                        if i not in min_pt and i - grid.ndim not in min_pt})""",
   """        min_pt.update({i: None for i in range(grid.ndim) if i not in min_pt})""",
   'uniform_partition_fromgrid[min_pt={-1: v}')
+DRF = 'odl/solvers/nonsmooth/douglas_rachford.py'
+M('C12', 'Douglas-Rachford pairs L[i] with w2[i-1]', DRF,
+  "            for Li, w2i in zip(L[1:], w2[1:]):",
+  "            for Li, w2i in zip(L[1:], w2):", 'C12-R6')
+M('C12', 'PDHG primal step ascends along L^* y', 'odl/solvers/nonsmooth/primal_dual_hybrid_gradient.py',
+  "        primal_tmp.lincomb(1, x, -tau, primal_tmp)",
+  "        primal_tmp.lincomb(1, x, tau, primal_tmp)", 'C12-R6')
+M('C12', 'proximal gradient steps along +grad g', 'odl/solvers/nonsmooth/proximal_gradient_solvers.py',
+  "        tmp.lincomb(1, x, -gamma, g_grad(x))",
+  "        tmp.lincomb(1, x, gamma, g_grad(x))", 'C12-R6')
+M('C12', 'forward-backward drops the smooth gradient', 'odl/solvers/nonsmooth/forward_backward.py',
+  "        tmp_1 = grad_h(x) + sum(Li.adjoint(vi) for Li, vi in zip(L, v))",
+  "        tmp_1 = sum(Li.adjoint(vi) for Li, vi in zip(L, v))", 'C12-R6')
